@@ -98,7 +98,32 @@ let () =
         if not ok then incr incon
         else begin
           incr mism;
-          Printf.printf "MISMATCH reject %s :: at=%d event=%s\n" !cur_hdr d (List.nth lines d)
+          Printf.printf "MISMATCH reject %s :: at=%d event=%s\n" !cur_hdr d (List.nth lines d);
+          if Sys.getenv_opt "SUP_DEBUG" <> None then begin
+            let (sts, _) = sup_accept cfg fuel (take d evs) in
+            Printf.printf "DEBUG frontier=%d\n" (List.length sts);
+            List.iteri (fun i st ->
+                if i < 6 then begin
+                  let sn = snapshot_of st in
+                  let q = quiescent cfg st in
+                  let en = List.filter (fun l -> step0 cfg st l <> None) (taus_nt cfg st @ autos cfg st) in
+                  let nm (l : label) = match l with
+                    | LLaunch _ -> "Launch" | LGateDecide _ -> "GateDecide" | LGateErr _ -> "GateErr" | LGateCtx _ -> "GateCtx"
+                    | LReapErr -> "ReapErr" | LReapCtx -> "ReapCtx" | LReapSig -> "ReapSig" | LMainShutdown -> "MainShutdown"
+                    | LErrSend _ -> "ErrSend" | LSdCancel -> "SdCancel" | LSdWgDone -> "SdWgDone" | LRmAccept _ -> "RmAccept"
+                    | LRmCtx -> "RmCtx" | LRmExit -> "RmExit" | LSdmExit -> "SdmExit" | LStmExit -> "StmExit"
+                    | LTrigRecvR _ -> "TrigRecvR" | LTrigRecvS _ -> "TrigRecvS" | LMonSub _ -> "MonSub" | LMonRecv _ -> "MonRecv"
+                    | LMonBcast _ -> "MonBcast" | LSigPut _ -> "SigPut" | LCallerCtx _ -> "CallerCtx" | LSubUnreg _ -> "SubUnreg"
+                    | LSubDo _ -> "SubDo" | LCallerGo _ -> "CallerGo" | LRunCall _ -> "RunCall" | LStopCall _ -> "StopCall"
+                    | LReloadCall _ -> "ReloadCall" | LRet _ -> "Ret" | LMainReturn _ -> "MainReturn" | _ -> "other" in
+                  Printf.printf "DEBUG   enabled: %s\n" (String.concat " " (List.map nm en));
+                  Printf.printf "DEBUG state %d: quiescent=%b enabled=%d gor=%d blocked=[%s] smap=[%s] ret=%b\n" i q
+                    (List.length en) (int_of_nat sn.sn_gor)
+                    (String.concat "+" (List.map (fun x -> string_of_int (int_of_nat x)) sn.sn_blocked))
+                    (String.concat "," (List.map (function None -> "-" | Some x -> string_of_int (int_of_nat x)) sn.sn_smap))
+                    sn.sn_run_returned
+                end) sts
+          end
         end
       end
   in
